@@ -29,6 +29,7 @@ def run(ctx):
     ctx.prove()
     variants = [('spqlios-fma', 'optim')]
     if thorough: variants = [(b, v) for b in vlib.BACKENDS for v in ('optim', 'debug')]
+    else: variants.append(('spqlios-fma', 'debug'))      # quick: the debug build (its assertions are part of what a gate does) on the decision edges and a few inputs only
     maxdrift = 0; maxerr = 0; ncases = 0
     for (backend, build) in variants:
         exe = vlib.build_harness('boot_drv.cpp', vlib.build_lib(build), backend, build)
@@ -76,6 +77,7 @@ def run(ctx):
                     cases.append((10, 'NOT', [smp, ([0] * n, 0), ([0] * n, 0)], 1 - a, kind, None))
                     cases.append((11, 'COPY', [smp, ([0] * n, 0), ([0] * n, 0)], a, kind, None))
                 cases.append((12, 'CONSTANT', [([0] * n, a), ([0] * n, 0), ([0] * n, 0)], a, 'exact', None))
+            if build == 'debug' and not thorough: cases = [c for c in cases if c[4] == 'edge'][::2] + [c for c in cases if c[4] != 'edge'][::9]
             lines = ['gatecase %s %d %s' % (spec, gi, ' '.join(fmt(x) + ' ' + str(y) for (x, y) in smp)) for (gi, g, smp, exp, kind, comb) in cases]
             io = vlib.run_lines(exe, lines, timeout=7200)
             hist[lam] = [(l, c[3], c[1], c[4]) for l, c in zip(lines, cases) if c[4] != 'edge' and c[3] is not None and c[0] != 12]
@@ -125,6 +127,7 @@ def run(ctx):
                         what = ('%s/%s, %d-bit set: %s on %s inputs decrypts to %d, expected %d (output phase %d)' % (backend, build, lam, g, kind, bit, exp_bit, ph)) if kind != 'edge' else \
                                ('%s/%s, %d-bit set: %s with trivial inputs whose combination c_g + alpha*b_a + beta*b_b = %d must round to the %s half: decrypts to %d (the gate\'s constant or coefficients differ)' % (backend, build, lam, g, comb, 'positive' if exp_bit else 'negative', bit))
                         ctx.report('gate-wrong', what, {'case': line[:200000], 'gate': g, 'kind': kind, 'expected_bit': exp_bit, 'observed_bit': bit, 'phase': ph, 'backend': backend, 'build': build, 'secret': s})
+        if build == 'debug' and not thorough: continue
         # (iii) "every cloud key": one thread of one process evaluates under several key sets in turn (smaller n first, then
         # larger, then back): the truth table must not depend on which key set the thread used before
         per = 40 if thorough else 14
